@@ -4,6 +4,7 @@ import (
 	"bytes"
 	"compress/zlib"
 	"encoding/binary"
+	"github.com/Tnze/go-mc/chat"
 	"io"
 	"reflect"
 
@@ -168,6 +169,7 @@ var readOps = []string{
 	"field.ary.fixedlen", "field.optiondecoder",
 	"field.fixed", "field.var", "field.string", "field.bytes", "field.bitset", "field.fixedbitset", "field.plugin",
 	"field.nbt", "field.option", "field.opt", "field.ary", "field.tuple", "field.signature", "rcon.readpacket",
+	"field.chat",
 }
 
 func rconFrame(id, typ int32, payload string) []byte {
@@ -599,6 +601,52 @@ func genReadCase(tp *tape.Tape, op string) *readCase {
 			rc.dec = func(r io.Reader) (any, int64, error) {
 				var v Rec
 				n, err := pk.NBTField{V: &v, AllowUnknownFields: true}.ReadFrom(r)
+				return v, n, err
+			}
+		}
+	case "field.chat":
+		// text components: a length-prefixed JSON text (with the white space a
+		// foreign encoder may leave around the value) or an NBT tag
+		word := func() string {
+			return []string{"", "hi", "a b", "\u00e9\u4e16", "x\\ny", "0123456789012345678901234567890123456789"}[tp.Choose(6)]
+		}
+		if tp.Bool(1, 2) {
+			var js string
+			switch tp.Choose(4) {
+			case 0:
+				js = `"` + word() + `"`
+			case 1:
+				js = `{"text":"` + word() + `","bold":true}`
+			case 2:
+				js = `{"text":"` + word() + `","extra":["` + word() + `",{"text":"` + word() + `","color":"red"}]}`
+			default:
+				js = `["` + word() + `",{"text":"` + word() + `"}]`
+			}
+			ws := []string{"", " ", "\n", "\r\n", "  \t ", "\n\n\n\n"}
+			js = ws[tp.Choose(len(ws))] + js + ws[tp.Choose(len(ws))]
+			rc.doc = append(frame.PutVarint(nil, int32(len(js))), js...)
+			rc.dec = func(r io.Reader) (any, int64, error) {
+				var v chat.JsonMessage
+				n, err := v.ReadFrom(r)
+				return v, n, err
+			}
+		} else {
+			root := &nbtgen.Node{Tag: nbtgen.String, Str: word()}
+			if tp.Bool(2, 3) {
+				root = &nbtgen.Node{Tag: nbtgen.Compound, Keys: []string{"text", "bold"},
+					Vals: []*nbtgen.Node{{Tag: nbtgen.String, Str: word()}, {Tag: nbtgen.Byte, Num: uint64(tp.Choose(2))}}}
+				if tp.Bool(1, 2) {
+					root.Keys = append(root.Keys, "extra")
+					root.Vals = append(root.Vals, &nbtgen.Node{Tag: nbtgen.List, ListType: nbtgen.Compound, List: []*nbtgen.Node{
+						{Tag: nbtgen.Compound, Keys: []string{"text"}, Vals: []*nbtgen.Node{{Tag: nbtgen.String, Str: word()}}},
+						{Tag: nbtgen.Compound, Keys: []string{"text", "color"}, Vals: []*nbtgen.Node{{Tag: nbtgen.String, Str: word()}, {Tag: nbtgen.String, Str: "red"}}},
+					}})
+				}
+			}
+			rc.doc = nbtgen.Doc(root, "", true)
+			rc.dec = func(r io.Reader) (any, int64, error) {
+				var v chat.Message
+				n, err := v.ReadFrom(r)
 				return v, n, err
 			}
 		}
